@@ -174,8 +174,8 @@ def c13a_gate(ck, prog):
                 ok = re.search(r"split_once\(.*@Continue\.0\.0$|split_once\(.*@Some\.0\.0$", d1) is not None and re.search(r"split_once\(.*@Continue\.0\.1$|split_once\(.*@Some\.0\.1$", d2) is not None
                 if not ok:
                     # the same halves by position of the first colon: (&c[..i], &c[i + 1..]) with i = c.find(':')
-                    m1 = re.search(r"index\((.*),RangeTo\{(.*)\}\)$", d1)
-                    m2 = re.search(r"index\((.*),RangeFrom\{Add(?:WithOverflow|Unchecked)?\((.*),const 1\)(?:\.0)?\}\)$", d2)
+                    m1 = re.search(r"index\((.*),RangeTo\{(.*)\}\)(?:\.\d)?$", d1)
+                    m2 = re.search(r"index\((.*),RangeFrom\{Add(?:WithOverflow|Unchecked)?\((.*),const 1\)(?:\.0)?\}\)(?:\.\d)?$", d2)
                     ok = bool(m1 and m2 and m1.group(1) == m2.group(1) and m1.group(2) == m2.group(2)
                               and re.search(r"(?<![r\w])find\(", m1.group(2)) and "const ':'" in m1.group(2) and "rfind(" not in m1.group(2))
                 ck.ob("C13-a MUSTPASS gate", "%s:matches-args" % which, ok, g.loc(c.sp),
